@@ -108,10 +108,33 @@ def scenarios():
     return scns
 
 
+def reuse_scenarios():
+    """a use of a non-ground fact is abandoned (or runs out) while the consumer keeps what it returned;
+    then the same fact is used again with its variables bound: what the first use returned must not move"""
+    a, b = A("a"), A("b")
+    facts = [C("p", C("f", V(0))), C("p", V(0)), C("p", C("g", V(0), V(1))), C("p", lst([V(0)], V(1)))]
+    firsts = [(C("p", V(0)), 1), (C("p", C("f", V(0))), 1), (C("p", C("g", V(0), V(1))), 2)]
+    seconds = [(C("p", C("f", a)), 0), (C("p", a), 0), (C("p", C("g", a, b)), 0), (C("p", lst([a, b])), 0), (C("p", V(0)), 1), (C("p", C("f", C("h", V(0)))), 1)]
+    scns = []
+    for sub in ([0], [0, 1], [2, 3], [1, 0, 2]):
+        steps = [[{"op": "assert", "e": 1, "term": facts[i], "atEnd": True, "r": 0}] for i in sub]
+        steps.append([{"op": "query", "e": 1, "r": 1, "goal": g, "qnv": n} for g, n in firsts])
+        steps.append([{"op": "next", "r": 1}])
+        steps.append([{"op": "next", "r": 1}, {"op": "close", "r": 1, "how": "close"}, {"op": "close", "r": 1, "how": "drop"}, {"op": "close", "r": 1, "how": "raise"}])
+        steps.append([{"op": "query", "e": 1, "r": 2, "goal": g, "qnv": n} for g, n in seconds])
+        steps.append([{"op": "next", "r": 2}])
+        steps.append([{"op": "next", "r": 2}, {"op": "close", "r": 1, "how": "close"}, {"op": "query", "e": 1, "r": 3, "goal": C("p", C("f", b)), "qnv": 0}])
+        steps.append([{"op": "next", "r": 2}, {"op": "next", "r": 3}, {"op": "close", "r": 2, "how": "drop"}])
+        steps.append([{"op": "solve", "e": 1, "r": 4, "goal": C("p", V(0)), "qnv": 1, "k": 0}])
+        scns.append({"scripts": {}, "steps": steps, "keys": KEYS})
+    return scns
+
+
 def run(tier, seed):
     chk = Check("C13", tier, seed)
     rnd = random.Random(seed)
     chk.machine_family("assert-histories", scenarios(), features=features)
+    chk.machine_family("reuse-after-abandoned-use", reuse_scenarios(), features=features)
     n = 1200 if tier == "quick" else 15000
     rs = [gen.random_scenario(rnd, {"db", "dyn", "ctl", "rich"}, nclauses=3, depth=rnd.choice([2, 3])) for _ in range(n)]
     for i in range(0, n, 4000):
